@@ -57,7 +57,7 @@ fn carrier() -> Carrier {
     Carrier { hdr: encode_wellformed(63, &h), payload }
 }
 
-fn run_case(t: &mut Tracer, c: &Value, car: &Carrier, idx: usize) {
+fn run_case(t: &mut Tracer, c: &Value, car: &Carrier, idx: usize, perm: usize) {
     let mut script: HashMap<Vec<u8>, (String, bool)> = HashMap::new();
     let verdict = |k: usize| c["verdicts"][k].as_str() == Some("accept");
     let sigbytes = |tag: &str, k: usize, short: bool| -> Vec<u8> {
@@ -107,11 +107,13 @@ fn run_case(t: &mut Tracer, c: &Value, car: &Carrier, idx: usize) {
     }
     let sig = encode_wellformed(62, &s);
     let bytes = rawhdr::assemble(&lead_bytes("sigcarrier"), &sig, &car.hdr, &car.payload, 0);
+    // the index of the signature header need not be sorted to be read (and nothing signs it): same entries, another order
+    let bytes = crate::c03::permute_sig_index(&bytes, perm).unwrap_or(bytes);
     let mut hp = car.hdr.clone();
     hp.extend_from_slice(&car.payload);
     let dstate = digest_state(&bytes);
     let digests_ok = dstate.as_ref().map(|d| ["md5", "sha1", "sha256", "payload"].iter().all(|k| d[*k] != "mismatch")).unwrap_or(false);
-    t.emit(json!({"event":"Begin","ep_start":true,"case":idx,"shape":c,"digests_ok":digests_ok,
+    t.emit(json!({"event":"Begin","ep_start":true,"case":idx,"perm":perm,"shape":c,"digests_ok":digests_ok,
                   "hdr_tok":hex(&Sha256::digest(&car.hdr)),"hdrpayload_tok":hex(&Sha256::digest(&hp))}));
     let pkg = match guarded(|| Package::parse(&mut &bytes[..])) {
         Ok(Ok(p)) => p,
@@ -162,7 +164,12 @@ pub fn run(args: &Args) {
         for (i, line) in std::fs::read_to_string(cases).unwrap().lines().enumerate() {
             if line.trim().is_empty() { continue; }
             let c: Value = serde_json::from_str(line).unwrap();
-            run_case(&mut t, &c, &car, i);
+            // a case whose recorded digest is wrong runs under every order of the signature index, the others under one
+            if c["digest"] == "mismatch" {
+                for perm in 0..8 { run_case(&mut t, &c, &car, i, perm); }
+            } else {
+                run_case(&mut t, &c, &car, i, i % 8);
+            }
         }
     }
     let nflips = args.num("flips", 400);
@@ -255,6 +262,25 @@ pub fn run(args: &Args) {
                 e["event"] = json!("NoSignature"); e["key"] = json!(key); e["what"] = json!(what);
                 e["ep_start"] = json!(true);
                 t.emit(e);
+            }
+        }
+        // the genuine signature(s) next to a header digest that is wrong, under every order of the signature index: a
+        // recorded digest that does not match the header rules success out
+        if !big {
+            let sha = lay.sig.string(&base, 273).unwrap_or_default();
+            if sha.len() == 64 {
+                let wrong: String = sha.chars().enumerate().map(|(i, c)| if i == 40 { if c == '0' { '1' } else { '0' } } else { c }).collect();
+                let mut m = base.clone();
+                if patch_hex(&mut m, &lay.sig, 273, &wrong) {
+                    for perm in 0..8 {
+                        let Some(mp) = crate::c03::permute_sig_index(&m, perm) else { continue };
+                        let mut e = verify_real(&mp, &orig, key);
+                        e["event"] = json!("WrongDigest"); e["key"] = json!(key);
+                        e["what"] = json!(format!("header SHA-256 digit 40 changed; signature index order {perm}"));
+                        e["ep_start"] = json!(true);
+                        t.emit(e);
+                    }
+                }
             }
         }
         // the same package with a signature header that holds the genuine signature(s) but no header digest: the payload
